@@ -1,6 +1,10 @@
 //! C14: content streams.
 //!  (enc (ops (op xOP operand...)...))  -> (res xENCODED <dec>)       verdict: decode(encode ops) == norm ops
 //!  (dec xBYTES)                        -> (res2 <dec1> xREENC <dec2>) verdict: dec1 ok => dec2 == dec1
+//!  (decv xBYTES K)                     -> as dec; the bytes come from the independent producer of props/c14.py, which wrote K
+//!                                         valid operations: dec1 must be ok and hold exactly K operations
+//!  (real xTEXT)                        -> (real <source real?> <overflows f32?>)  verdict: the float assumptions of
+//!                                         Proofs/DecodeRtProofs.v (canon_spec) hold for this spelling on Rust's f32
 //! An inline image is the operator BI with one stream operand; it is read back with a Length entry (Stream::new), so the
 //! expected operand of an `enc` case is the given stream with Length = content length.  Every decoded inline image
 //! (both modes) must hold exactly H rows of ceil(W * components * BPC / 8) bytes (ISO 32000-1 8.9.3: each row is
@@ -102,6 +106,83 @@ fn same_ops(a: &[Operation], b: &[Operation]) -> bool {
         })
 }
 
+/// the second sentence of the property, evaluated on the implementation: decode, encode, decode again
+fn dec_case(b: &[u8], want_ops: Option<usize>) -> (Sx, String) {
+    let d1 = Content::decode(b);
+    match &d1 {
+        Ok(c) => {
+            let e = match c.encode() {
+                Ok(e) => e,
+                Err(_) => return (Sx::id("encode-error"), "FAIL encode of decoded content failed".into()),
+            };
+            let d2 = Content::decode(&e);
+            let verdict = match &d2 {
+                _ if want_ops.map(|k| k != c.operations.len()).unwrap_or(false) => format!(
+                    "FAIL valid content of {} operations decodes to {} operations",
+                    want_ops.unwrap(),
+                    c.operations.len()
+                ),
+                _ if images_ok(&c.operations).is_err() => format!("FAIL {}", images_ok(&c.operations).unwrap_err()),
+                Ok(c2) if same_ops(&c.operations, &c2.operations) => "ok".to_string(),
+                Ok(_) => "FAIL re-encoded content decodes to different operations".to_string(),
+                Err(_) => "FAIL re-encoded content does not decode".to_string(),
+            };
+            (Sx::tagged("res2", vec![dec_to_sx(&d1), Sx::bytes(&e), dec_to_sx(&d2)]), verdict)
+        }
+        Err(_) => (
+            Sx::tagged("res2", vec![Sx::id("err")]),
+            if want_ops.is_some() { "FAIL valid content does not decode".into() } else { "ok".into() },
+        ),
+    }
+}
+
+/// (real xTEXT): is TEXT a whole token of the real parser, does it overflow f32; and the float assumptions
+/// (canon_spec): Display of the parsed f32 has the shape -?d+(.d+)? and, spelled with a point, reads back as the same f32
+fn real_case(t: &[u8]) -> (Sx, String) {
+    let res = |src: bool, ovf: bool| Sx::tagged("real", vec![Sx::boolean(src), Sx::boolean(ovf)]);
+    if t.is_empty() || !t.iter().all(|c| b"0123456789+-.".contains(c)) {
+        return (res(false, false), "skip".into());
+    }
+    let mut inp = t.to_vec();
+    inp.extend_from_slice(b" x");
+    let v = match Content::decode(&inp) {
+        Ok(c) => match c.operations.as_slice() {
+            [Operation { operator, operands }] if operator == "x" => match operands.as_slice() {
+                [Object::Real(v)] => Some(*v),
+                _ => None,
+            },
+            _ => None,
+        },
+        Err(_) => None,
+    };
+    let v = match v {
+        Some(v) => v,
+        None => return (res(false, false), "ok".into()),
+    };
+    if v.is_infinite() {
+        return (res(true, true), "ok".into());
+    }
+    if v.is_nan() {
+        return (res(true, false), "FAIL a source real parsed as NaN".into());
+    }
+    let d = format!("{}", v);
+    let db = d.as_bytes();
+    let digits = |s: &[u8]| !s.is_empty() && s.iter().all(|c| c.is_ascii_digit());
+    let body = if db.first() == Some(&b'-') { &db[1..] } else { db };
+    let shape = match body.iter().position(|c| *c == b'.') {
+        None => digits(body),
+        Some(i) => digits(&body[..i]) && digits(&body[i + 1..]),
+    };
+    if !shape {
+        return (res(true, false), format!("FAIL float assumption canon_shape: Display prints {:?}", d));
+    }
+    let pointed = if d.contains('.') { d.clone() } else { format!("{}.0", d) };
+    match pointed.parse::<f32>() {
+        Ok(w) if w.to_bits() == v.to_bits() && format!("{}", w) == d => (res(true, false), "ok".into()),
+        _ => (res(true, false), format!("FAIL float assumption canon_idem: {:?} does not read back as the same f32", pointed)),
+    }
+}
+
 fn main() {
     lvh::drive(|x| {
         let a = x.args();
@@ -147,30 +228,18 @@ fn main() {
                 };
                 (Sx::tagged("res", vec![Sx::bytes(&enc), dec_to_sx(&dec)]), verdict)
             }
-            Some("dec") => {
-                let b = match a[0].as_bytes() {
-                    Some(b) => b,
-                    None => return (Sx::id("badcase"), "skip".into()),
-                };
-                let d1 = Content::decode(&b);
-                match &d1 {
-                    Ok(c) => {
-                        let e = match c.encode() {
-                            Ok(e) => e,
-                            Err(_) => return (Sx::id("encode-error"), "FAIL encode of decoded content failed".into()),
-                        };
-                        let d2 = Content::decode(&e);
-                        let verdict = match &d2 {
-                            _ if images_ok(&c.operations).is_err() => format!("FAIL {}", images_ok(&c.operations).unwrap_err()),
-                            Ok(c2) if same_ops(&c.operations, &c2.operations) => "ok".to_string(),
-                            Ok(_) => "FAIL re-encoded content decodes to different operations".to_string(),
-                            Err(_) => "FAIL re-encoded content does not decode".to_string(),
-                        };
-                        (Sx::tagged("res2", vec![dec_to_sx(&d1), Sx::bytes(&e), dec_to_sx(&d2)]), verdict)
-                    }
-                    Err(_) => (Sx::tagged("res2", vec![Sx::id("err")]), "ok".into()),
-                }
-            }
+            Some("dec") => match a[0].as_bytes() {
+                Some(b) => dec_case(&b, None),
+                None => (Sx::id("badcase"), "skip".into()),
+            },
+            Some("decv") => match (a[0].as_bytes(), a.get(1).and_then(|k| k.as_u64())) {
+                (Some(b), Some(k)) => dec_case(&b, Some(k as usize)),
+                _ => (Sx::id("badcase"), "skip".into()),
+            },
+            Some("real") => match a[0].as_bytes() {
+                Some(t) => real_case(&t),
+                None => (Sx::id("badcase"), "skip".into()),
+            },
             _ => (Sx::id("badcase"), "skip".into()),
         }
     });
